@@ -114,12 +114,25 @@ def extract(repo):
     # SCOPEfind_for_rename: the statements the model depends on, in order; each is matched on its own so that an added guard
     # or a reformatting elsewhere does not break the tie.  Recognised: own-table look-up; loop over use_schemas with an optional
     # NULL skip; usedict look-up; optional uselist scan; `return 0`.
+    # Since the look-up may be split into a wrapper and a worker that carries the chain of schemas being searched
+    # (`struct rename_search`), the steps are matched on whichever function holds them.
     ffr = _norm(_body(exp, r"\bstatic\s+void\s*\*\s*SCOPEfind_for_rename\s*\(\s*Scope\s+schema\s*,\s*char\s*\*\s*name\s*\)\s*\{"))
+    rec_call = r"SCOPEfind_for_rename\(use_schema,name\)"
+    guard_decl = guard_loop = ""
+    search_guard = False
+    if re.fullmatch(r"returnSCOPE_find_for_rename\(schema,name,\(structrename_search\*\)0\);", ffr):
+        ffr = _norm(_body(exp, r"\bstatic\s+void\s*\*\s*SCOPE_find_for_rename\s*\(\s*Scope\s+schema\s*,\s*char\s*\*\s*name\s*,"
+                               r"\s*struct\s+rename_search\s*\*\s*up\s*\)\s*\{"))
+        rec_call = r"SCOPE_find_for_rename\(use_schema,name,&here\)"
+        guard_decl = r"structrename_searchhere;structrename_search\*p;"
+        guard_loop = r"for\(p=up;p;p=p->up\)\{if\(p->schema==schema\)\{return0;\}\}here\.schema=schema;here\.up=up;"
+        search_guard = True
     steps = [
-        ("decls", r"void\*result;Rename\*rename;", True),
+        ("decls", r"void\*result;Rename\*rename;" + guard_decl, True),
+    ] + ([("search-guard", guard_loop, True)] if search_guard else []) + [
         ("own", r"result=DICTlookup\(schema->symbol_table,name\);if\(result\)\{returnresult;\}", True),
         ("full-use", r"LISTdo\(schema->u\.schema->use_schemas,use_schema,Schema\)\{(?P<skip>if\(!use_schema\)\{continue;\})?"
-                     r"result=SCOPEfind_for_rename\(use_schema,name\);if\(result\)\{return\(result\);\}\}LISTod;", True),
+                     r"result=" + rec_call + r";if\(result\)\{return\(result\);\}\}LISTod;", True),
         ("usedict", r"rename=\(Rename\*\)DICTlookup\(schema->u\.schema->usedict,name\);if\(rename\)\{RENAMEresolve\(rename,schema\);"
                     r"DICT_type=rename->type;return\(rename->object\);\}", True),
         ("uselist", r"LISTdo\(schema->u\.schema->uselist,r,Rename\*\)if\(!strcmp\(\(r->nnew\?r->nnew:r->old\)->name,name\)\)\{"
@@ -169,6 +182,8 @@ def extract(repo):
            f"def renameUselistFallback : Bool := {'true' if uselist_fallback else 'false'}",
            "/-- `SCOPEfind_for_rename` skips the NULL entry a failed `USE FROM <schema>;` leaves in `use_schemas` (else: crash) -/",
            f"def useSchemasSkipsNull : Bool := {'true' if skips_null else 'false'}",
+           "/-- the look-up carries the chain of schemas being searched and does not re-enter one of them (schemas may USE each other) -/",
+           f"def renameSearchGuard : Bool := {'true' if search_guard else 'false'}",
            "/-- the codes some `ERRORis_enabled( CODE )` outside error.c consults -/",
            "def guardedCodeNames : List String := [" + ", ".join(f'"{g}"' for g in guarded) + "]",
            "/-- first line number of a file, and whether the counter restarts for every file that is scanned -/",
